@@ -144,10 +144,7 @@ pub fn slots_child() {
     let node = flow.process::<()>();
     let tick = node.tick();
     let (in_send, input_payloads) = node.sim_input();
-    let persistent_max = node
-        .source_iter(q!([123usize]))
-        .max()
-        .snapshot(&tick, nondet!(/** probe */));
+    let persistent_max = tick.singleton(q!(Some(123usize))).into_optional();
     let indexed = hydro_test::cluster::paxos::index_payloads(
         persistent_max,
         input_payloads.batch(&tick, nondet!(/** probe */)),
